@@ -739,9 +739,11 @@ def c05_value_case(rng):
     want_ctx = ",".join("%s=I%d" % (hexs(k), env[k]) for k in sorted(env, key=hexs))
     want_log = ",".join("%s(I%d)" % (hexs("rec"), n) for n in log)
     entry = rng.choice(["srv", "nrv"]) if readonly else rng.choice(["smv", "nmv"])
-    if rng.random() < 0.5 and v[0] in "TEI":   # the typed entry point of the result's own type: same evaluation, same effects
-        entry = entry[:2] + {"T": "t", "E": "e", "I": "i"}[v[0]]
     want = "OK " + value_text(v) if st["dead"] is None else "ERR " + st["dead"]
+    if rng.random() < 0.5:   # a typed entry point (any of the eight): the same evaluation and effects, the result projected
+        ty = rng.choice("teinsfb" + {"T": "ttt", "E": "eee", "I": "iin", "F": "ffn", "S": "sss", "B": "bbb"}[v[0]])
+        entry = entry[:2] + ty
+        want = strip_payload(project_text(ty, want)) if want.startswith("OK") else want
     return (G.script("H", ["setfn %s id" % hexs("rec"), "ev %s %s" % (entry, hexs(src))]),
             {"kind": "seq-value", "src": src, "entry": entry, "want": want,
              "want_tail": "CTX{%s;off=0;fns=%s} LOG[%s]" % (want_ctx, hexs("rec"), want_log)})
@@ -755,6 +757,8 @@ def c05_oracle(case, out, model_out):
         steps = step_outputs(out)
         tail = out.split(" || ")[1] if " || " in out else ""
         got = steps[-1] if not m["want"].startswith("ERR") else strip_payload(steps[-1])
+        if out.startswith("PANIC"):
+            return "evaluating %r (%s) panics: %s" % (m["src"], m["entry"], out[:200])
         if got != m["want"] or tail != m["want_tail"]:
             return "evaluating %r (%s) gives %s with %s; every element is evaluated in order, a chain yields its last element and a tuple all of them: %s with %s" % (m["src"], m["entry"], steps[-1], tail, m["want"], m["want_tail"])
     return None
@@ -847,7 +851,39 @@ def recognise(tokens):
     return balanced, reason
 
 
-C13_SETUP = ["init %s I3" % hexs("a"), "setfn %s id" % hexs("a"), "init %s I4" % hexs("b"), "setfn %s id" % hexs("f")]
+# every identifier the generators use is bound (as a variable AND as an identity function), so that an accepted
+# ill-formed input is not hidden behind an unknown name
+C13_SETUP = (["init %s I3" % hexs("a"), "setfn %s id" % hexs("a"), "init %s I4" % hexs("b"), "setfn %s id" % hexs("f")]
+             + ["init %s I%d" % (hexs(nm), 5 + k) for k, nm in enumerate(["c", "x", "y", "foo", "_z", "a1"])]
+             + ["setfn %s id" % hexs(nm) for nm in ["g", "h", "b", "c", "x", "y", "foo", "_z", "a1"]])
+
+
+def tree_arity_defect(tree_text):
+    """True if some operator of the printed tree has a number of operands it cannot be evaluated with"""
+    toks = re.findall(r"\(|\)|[^\s()]+", tree_text)
+    stack = []
+    bad = False
+    for t in toks:
+        if t == "(":
+            stack.append(None)
+        elif t == ")":
+            op, n = stack.pop()
+            name = op.split(":")[0]
+            if name in ("Const", "Read", "Write"):
+                bad |= n != 0
+            elif name in ("Neg", "Not", "Fn"):
+                bad |= n != 1
+            elif name == "RootNode":
+                bad |= n > 1
+            elif name in ("Tuple", "Chain"):
+                pass
+            else:
+                bad |= n != 2
+            if stack:
+                stack[-1] = (stack[-1][0], stack[-1][1] + 1)
+        elif stack and stack[-1] is None:
+            stack[-1] = (t, 0)
+    return bad
 
 
 def c13_case(tokens):
@@ -874,7 +910,8 @@ def c13_gen(tier, rng):
             for seq in itertools.product(alpha, repeat=n):
                 cases.append(c13_case(list(seq)))
     for alpha, lens in ((["false", "true", "&&", "||", "!", "(", ")"], (4, 5)), (["0", "1", "*", "^", "(", ")", "!", "-"], (5,)),
-                        (["f", "typeof", "!", "-", "true", "1", "(", ")"], (3, 4, 5))):
+                        (["f", "typeof", "!", "-", "true", "1", "(", ")"], (3, 4, 5)),
+                        (['"s"', "1", "a", "<", "=", "(", ")", "f"], (2, 3, 4, 5)), (['"s"', '"t"', "+", "%", "/", "!=", ",", "x"], (2, 3, 4))):
         for n in lens:
             for seq in itertools.product(alpha, repeat=n):
                 cases.append(c13_case(list(seq)))
@@ -928,6 +965,8 @@ def c13_oracle(case, out, model_out):
         for e in evals:
             if e.startswith("OK"):
                 return "%r is ill-formed (%s) but evaluates: %s" % (m["src"], m["reason"], e[:200])
+        if build.startswith("OK ") and not tree_arity_defect(build[3:]):
+            return "%r is ill-formed (%s) but precompiles to a tree in which every operator has a legal number of operands: %s" % (m["src"], m["reason"], build[:300])
     return None
 
 
@@ -1305,6 +1344,8 @@ def ref_eval(e, env, log, readonly=False):
         return ("I", -v[1])
     if k == "call":
         a = ref_eval(e[2], env, log, readonly)
+        if e[1] == "typeof":  # a real builtin: its argument is evaluated like any other
+            return ("S", {"I": "int", "F": "float", "S": "string", "B": "boolean", "T": "tuple", "E": "empty"}[a[0]])
         if e[1] == "if":      # the builtin: an eager function of a 3-tuple like any other
             if a[0] != "T":
                 raise Stop("ExpectedTuple")
@@ -1423,8 +1464,12 @@ def c08_rand_expr(r, depth, ty=None):
     if ty == "B":
         if k < 0.6:
             return ("bin", r.choice(["&&", "||"]), c08_rand_expr(r, depth - 1, "B"), c08_rand_expr(r, depth - 1, "B"))
-        if k < 0.7:
+        if k < 0.66:
             return ("bin", r.choice(["<", ">", "<=", ">="]), c08_rand_expr(r, depth - 1, "I"), c08_rand_expr(r, depth - 1, "I"))
+        if k < 0.7:       # typeof of anything, also of a power (always a float): the operands are evaluated whatever the type test makes of them
+            inner = c08_rand_expr(r, depth - 1) if r.random() < 0.6 else ("bin", "^", c08_rand_expr(r, depth - 1, "I"), c08_rand_expr(r, depth - 1, "I"))
+            tn = r.choice(["int", "float", "boolean", "tuple"])
+            return ("bin", r.choice(["==", "!="]), ("call", "typeof", ("paren", inner) if inner[0] == "bin" else inner), ("lit", '"%s"' % tn, "S" + hexs(tn)))
         if k < 0.85:
             t2 = r.choice("IBT")
             return ("bin", r.choice(["==", "!="]), c08_rand_expr(r, depth - 1, t2), c08_rand_expr(r, depth - 1, t2))
@@ -1493,7 +1538,7 @@ def c08_gen(tier, rng):
         ro = rng.random() < 0.3
         want = ref_run(e, ro)
         lvl = rng.choice("sn")
-        ty = rng.choice("vvvvvnnibte")    # typed entry points evaluate exactly once too; their result is the projection
+        ty = rng.choice("vvvvvnnibtesf")    # typed entry points evaluate exactly once too; their result is the projection
         want = (strip_payload(project_text(ty, want[0])), want[1], want[2])
         cases.append((G.script("H", c08_setup() + ["ev %s%s%s %s" % (lvl, "r" if ro else "m", ty, hexs(src))]),
                       {"kind": "effects", "src": src, "want": list(want), "readonly": ro, "entry": lvl + ("r" if ro else "m") + ty}))
@@ -1529,7 +1574,9 @@ def c08_gen(tier, rng):
 
 def c08_oracle(case, out, model_out):
     m = case[1]
-    if m.get("kind") != "effects" or out.startswith("PANIC"):
+    if m.get("kind") == "effects" and out.startswith("PANIC"):
+        return "program %r (entry %s) panics: %s; the reference interpreter gives %s" % (m["src"], m.get("entry"), out[:160], tuple(m["want"]))
+    if m.get("kind") != "effects":
         return None
     got = triple_of(out, 0)
     want = tuple(m["want"])
@@ -1539,7 +1586,7 @@ def c08_oracle(case, out, model_out):
 
 
 PROPS["C08"] = {
-    "gen": c08_gen, "oracle": c08_oracle,
+    "gen": c08_gen, "oracle": c08_oracle, "release": True,
     "rule": "random programs (depth <= 4, optionally a chain of several) over int/bool literals, bound and unbound variables, + - * / && || ==, assignments = += -= *= &&= ||=, calls of six recording user functions (identity, constant, failing, first, swap, increment), tuples and chains with absent elements; evaluated with a mutable context at string and tree level; compared with a reference interpreter on (result or error name, final variables, ordered call log); non-trivial = the program has a call or an assignment",
     "nontrivial": lambda c, out: "LOG[]" not in out or "=" in c[1].get("src", ""),
     "assumptions": ["reference interpreter of tools/props.py (ref_eval): used only to search for failing inputs",
@@ -1565,7 +1612,7 @@ def c11_gen(tier, rng):
         e = c08_program(rng)
         src = G.render(G.flatten(e), None, "space")
         kind = rng.choice(["H", "H", "N"])
-        ty = rng.choice("vvvvvvnibte")      # the typed read-only entry points are projections of the same evaluation
+        ty = rng.choice("vvvvvvnibtesf")      # the typed read-only entry points are projections of the same evaluation
         ops = c08_setup() + ["dump", "evc smv " + hexs(src), "ev sr%s %s" % (ty, hexs(src)), "ev nr%s %s" % (ty, hexs(src)), "dump"]
         cases.append((G.script(kind, ops), {"kind": "ro-vs-mut", "src": src, "ctx": kind, "assign": has_assign(e), "ty": ty,
                                              "want_ro": list(ref_run(e, True)), "want_mut": list(ref_run(e, False))}))
@@ -1600,6 +1647,10 @@ def c11_gen(tier, rng):
         for kind in ("N", "E", "EB"):
             ops = (C12_SETUP if kind == "N" else []) + ["dump", "ev srv " + hexs(src), "dump"] + (["evc smv " + hexs(src), "dump"] if kind == "N" else [])
             cases.append((G.script(kind, ops), {"kind": "nostore", "src": src, "ctx": kind}))
+            # ... and through every typed entry point at both levels
+            ops = (C12_SETUP if kind == "N" else []) + ["dump"] + ["ev %sr%s %s" % (lv, ty, hexs(src)) for lv in "sn" for ty in TYPES] + \
+                  (["evc %sm%s %s" % (lv, ty, hexs(src)) for lv in "sn" for ty in TYPES] if kind == "N" else []) + ["dump"]
+            cases.append((G.script(kind, ops), {"kind": "nostore", "src": src, "ctx": kind}))
     return cases
 
 
@@ -1610,7 +1661,7 @@ def strip_payload(s):
 def c11_oracle(case, out, model_out):
     m = case[1]
     if out.startswith("PANIC"):
-        return None
+        return "evaluating %r panics: %s" % (m.get("src"), out[:200]) if m.get("kind") in ("ro-vs-mut", "agree", "nostore") else None
     steps = step_outputs(out)
     if m.get("kind") == "ro-vs-mut":
         d0, mut, ro, ro_n, d1 = steps[-5:]
@@ -1618,6 +1669,10 @@ def c11_oracle(case, out, model_out):
             return "read-only evaluation of %r changed the context: %s -> %s" % (m["src"], d0, d1)
         if ro != ro_n:
             return "string-level and tree-level read-only evaluation of %r differ: %s vs %s" % (m["src"], ro, ro_n)
+        if m["ctx"] == "N":      # read-only evaluation does not depend on how the context would store anything
+            ty = m.get("ty", "v")
+            if strip_payload(ro) != strip_payload(project_text(ty, m["want_ro"][0])):
+                return "read-only evaluation of %r on a context without variable storage (result type %s) gives %s; the reference gives %s" % (m["src"], ty, ro, m["want_ro"][0])
         if m["ctx"] == "H":
             ty = m.get("ty", "v")
             if not m["assign"] and strip_payload(ro) != strip_payload(project_text(ty, mut)):
@@ -1824,7 +1879,7 @@ def c04_history(rng, length):
             A.vars, A.funs = {}, {}
             want.append("OK")
         elif k < 0.83:
-            f = rng.choice(["f", "a", "max"])
+            f = rng.choice(["f", "a", "max", "F", "Max", " f", "f "])
             kv = rng.choice([7, 8, 9])     # a later set_function of the same name replaces the earlier one
             ops.append("setfn %s konst:I%d" % (hexs(f), kv))
             A.funs[f] = kv
@@ -1838,7 +1893,7 @@ def c04_history(rng, length):
             ops.append("clone")
             want.append("OK")
         elif k < 0.97:
-            f = rng.choice(["f", "a", "max"])
+            f = rng.choice(["f", "a", "max", "F", "Max", " f", "f "])
             ops.append("call %s I1" % hexs(f))
             want.append("OK I%d" % A.funs[f] if f in A.funs else "ERR FunctionIdentifierNotFound(%s)" % hexs(f))
         else:
@@ -1894,7 +1949,9 @@ def c04_oracle(case, out, model_out):
         if "want_prefix" in m and not (out.startswith(m["want_prefix"]) and all(p in out for p in m["want_parts"]) and len(re.findall(r"=F[0-9a-f]{16}", out)) == m["count"]):
             return "math_consts_context!() gives %s" % out[:300]
         return None
-    if m.get("kind") != "history" or out.startswith("PANIC"):
+    if m.get("kind") == "history" and out.startswith("PANIC"):
+        return "history %s: the library panicked (%s); every step has a defined outcome in the abstract map" % (case[0].split("\t")[2][:300], out[:160])
+    if m.get("kind") != "history":
         return None
     steps = step_outputs(out)
     for i, (got, want) in enumerate(zip(steps, m["want"])):
@@ -1942,7 +1999,7 @@ def c04_macro_cases():
 
 
 PROPS["C04"] = {
-    "gen": c04_gen, "oracle": c04_oracle,
+    "gen": c04_gen, "oracle": c04_oracle, "release": True,
     "rule": "random histories (length 1..60) over two names and twelve values of the six types: set_value, expression assignments with the 9 assignment operators, get, read, clear_variables / clear_functions / clear, set_function, toggling builtins, clone-and-continue (the original is re-inspected at the end), call; the complete state is dumped after every step and compared with an abstract map with the type rule; plus every (old value, new value) pair through set_value and through every assignment operator; non-trivial = history of two or more steps",
     "nontrivial": lambda c, out: c[0].count(";") >= 2,
     "assumptions": ["abstract map of tools/props.py (AbsCtx): used only to search for failing inputs; twin of Spec/AbsCtx.v",
@@ -1981,7 +2038,7 @@ def c09_cases(names_builtin, names_other, rng, full):
                             if off_first:
                                 setup += ["off 1", "off 0"] if off == "toggle" else ["off %d" % off]
                             if kind in ("H", "N"):
-                                setup.append("init %s I5" % hexs("x"))
+                                setup.append("init %s I3" % hexs("x"))
                                 setup.append("init %s T(I7)" % hexs("t1"))
                                 setup.append("setfn %s id" % hexs("wrap"))
                                 if var == "first":     # the variable is bound before the function of the same name
@@ -2006,7 +2063,7 @@ def c09_cases(names_builtin, names_other, rng, full):
                             has_user = (userfn if post != "clrf" else False)
                             forms = [("%s(3)" % n, "I3"), ("%s 3" % n, "I3"), ("%s()" % n, "E"), ("%s(3, 4)" % n, "T(I3,I4)"),
                                      ('%s "s"' % n, "S" + hexs("s")), ("%s true" % n, "B1"), ("%s 2.5" % n, "F4004000000000000"),
-                                     ("%s x" % n, "I5") if kind in ("H", "N") else ("%s (())" % n, "E")]
+                                     ("%s x" % n, "I3") if kind in ("H", "N") else ("%s (())" % n, "E")]
                             forms += [("%s %s 3" % (n, n), "I3"), ("%s((3))" % n, "I3"), ("%s /* c */ (3)" % n, "I3"), ("%s\n3" % n, "I3")]
                             if kind in ("H", "N"):
                                 forms.append(("%s t1" % n, "T(I7)"))     # a one-element tuple is passed as it is
@@ -2042,6 +2099,16 @@ def c09_gen(tier, rng):
     full = tier == "thorough"
     nb = list(L.DOCUMENTED_BUILTINS)     # every builtin name in both tiers (the quick tier drops half of the clone / clear_functions variants)
     cases = c09_cases(nb, C09_NON_BUILTIN, rng, full)
+    # a user function bound under a variant spelling: the canonical name still means the builtin (or nothing)
+    for n in nb + C09_NON_BUILTIN:
+        variants = [v for v in (n.capitalize(), n.upper(), " " + n, n + " ", "::" + n, n.swapcase(), n + "_") if v != n]
+        v = rng.choice(variants)
+        forms = [("%s(3)" % n, "I3"), ("%s 3" % n, "I3"), ("%s(3, 4)" % n, "T(I3,I4)")]
+        for off in (False, True):
+            setup = ["setfn %s konst:%s" % (hexs(v), MARK)] + (["off 1"] if off else [])
+            ops = setup + ["ev srv " + hexs(src) for src, _ in forms] + ["ev srv " + hexs(n), "call %s I1" % hexs(n), "call %s I1" % hexs(v), "dump"]
+            cases.append((G.script("H", ops), {"kind": "resolution", "name": n, "ctx": "H", "disabled": off, "user": False, "var": False,
+                                                "is_builtin": n in L.DOCUMENTED_BUILTINS, "forms": forms, "nsetup": len(setup), "post": "", "variant": v}))
     # names next to the builtin names resolve to nothing (contexts without user functions), whatever the switch
     for n in builtin_near_misses():
         for kind in ("EB", "H"):
@@ -2085,7 +2152,15 @@ def c09_post(cases, impl, model):
             elif m["disabled"]:
                 want = "ERR FunctionIdentifierNotFound(%s)" % hexs(n)
             elif m["is_builtin"]:
-                want = builtin_answer.get(src if not nested else src[5:])
+                key = src if not nested else src[5:]
+                if key == "%s x" % n:
+                    key = "%s 3" % n       # x is bound to 3
+                want = builtin_answer.get(key)
+                if key in ("%s t1" % n, "%s(t1)" % n):     # t1 = (7,): a one-element tuple reaches the builtin as it is
+                    want = {"typeof": "OK S" + hexs("tuple"), "len": "OK I1", "str::from": "OK S" + hexs("(7)"), "min": "OK I7", "max": "OK I7",
+                            "contains": None, "if": None}.get(n)
+                    if want is None and n.startswith("math::") or n in ("floor", "round", "ceil", "bitnot", "str::trim", "str::to_lowercase", "str::to_uppercase"):
+                        want = None
             else:
                 want = "ERR FunctionIdentifierNotFound(%s)" % hexs(n)
             if nested and want is not None and want.startswith("OK "):
@@ -2097,6 +2172,11 @@ def c09_post(cases, impl, model):
                 fails.append((i, "call form %r must pass %s to the user function %s; call log: %s" % (src, arg, n, log)))
                 break
         else:
+            if m.get("variant"):
+                c1, c2 = steps[len(m["forms"]) + 1], steps[len(m["forms"]) + 2]
+                if c1 != "ERR FunctionIdentifierNotFound(%s)" % hexs(n) or c2 != "OK " + MARK:
+                    fails.append((i, "a function bound as %r: call_function(%r) gives %s (no such function is bound), call_function(%r) gives %s" % (m["variant"], n, c1, m["variant"], c2)))
+                    continue
             bare = steps[len(m["forms"])]
             want = ("OK S" + hexs("var")) if m["var"] else "ERR VariableIdentifierNotFound(%s)" % hexs(n)
             if bare != want:
@@ -2234,6 +2314,11 @@ def c14_oracle(case, out, model_out):
             want = (",".join(nodes_l), str(len(rest)), rest[-1] if rest else "-", "".join(x + ";" for x in rest))
             if (seen, cnt, last, folded) != want:
                 return "Node::iter() of %r used through next() x%d then for_each / count / last / fold gives %s, the pre-order traversal gives %s" % (m["src"], k, (seen, cnt, last, folded), want)
+    fr = re.search(r"free<(ERR (?:Variable|Function)IdentifierNotFound\(([0-9a-f]*)\))>", out)
+    if fr:
+        listed = (got.get("vars", "") if "Variable" in fr.group(1) else got.get("fns", "")).split(",")
+        if fr.group(2) not in listed:
+            return "evaluating %r without a context reports %s, a name the %s iterator does not list: [%s]" % (m["src"], fr.group(1), "variable" if "Variable" in fr.group(1) else "function", ",".join(listed))
     ad = re.search(r"adapt<([^>]*)>", out)
     if ad:
         N = got.get("nodes", "").split(",") if got.get("nodes") else []
@@ -2429,6 +2514,11 @@ def c06_gen(tier, rng):
     tree("a-1e+2", "OK (RootNode (Sub (Read:61) (Const:F%016x)))" % f_bits(100.0))
     tree("1e+", "OK (RootNode (Add (Read:%s)))" % hexs("1e"))
     tree("1e-x", "OK (RootNode (Sub (Read:%s) (Read:78)))" % hexs("1e"))
+    tree("2e-3x", "OK (RootNode (Sub (Read:%s) (Read:%s)))" % (hexs("2e"), hexs("3x")))
+    tree("1e+2e", "OK (RootNode (Add (Read:%s) (Read:%s)))" % (hexs("1e"), hexs("2e")))
+    tree("1e-3.5.1", "OK (RootNode (Sub (Read:%s) (Read:%s)))" % (hexs("1e"), hexs("3.5.1")))
+    tree("1e--3", "OK (RootNode (Sub (Read:%s) (Neg (Const:I3))))" % hexs("1e"))
+    tree("1e-0x3", "OK (RootNode (Sub (Read:%s) (Const:I3)))" % hexs("1e"))
     # booleans, identifiers
     tree("true", "OK (RootNode (Const:B1))")
     tree("false", "OK (RootNode (Const:B0))")
@@ -2441,6 +2531,13 @@ def c06_gen(tier, rng):
                  "truee", "ttrue", "falsee", "true1", "0xtrue", "0xfalse", "0xe", "0xE1", "1E", "E1", "0e", "00", "0x0", "0x00"])
     for _ in range(n // 2):
         words.add("".join(rng.choice("00119xXeE..afgF_nt") for _ in range(rng.randint(1, 7))))
+    # every ASCII character that is neither an operator character, a quote nor white space is part of a word
+    words |= {"'a'", "`a`", "'", "''", "a'b", "0o17", "0O7", "0h1f", "0b101", "1'000", "1k", "10px", "$x", "@a", "a?", "~a", "[1]", "{a}", "#1", "a#b", "a.b.c",
+              "r'a'", "x\\y", "a:b", "::a", "a::", "a$", "€1", "1€", "ºC", "a\u0301", "０", "١٢٣", "x²", "½", "0x१", "１e5", "1e５", "ⅷ", "true'", "'true", "false.",
+              "0x1.8", "0x1p3", "1_0", "_1", "1__", "0x_", "nan0", "infx", "e", "E5", ".e", "e.", "-", "0e", "0x0e"} - {"-"}
+    for _ in range(n // 4):
+        words.add("".join(rng.choice("019obhkxe'`@$?~[]{}#:._a") for _ in range(rng.randint(1, 6))))
+    words = {w for w in words if not w.startswith("//") and "/*" not in w}
     for w in sorted(words):
         if w.lower() in ("inf", "infinity", "nan"):
             continue
@@ -2586,6 +2683,22 @@ def c01_gen(tier, rng):
                 cases.append((G.call_case(n, G.vT([a, b])), {"kind": "builtin"}))
         for _ in range(120 if tier == "quick" else 4000):
             cases.append((G.call_case(n, G.vT([rng.choice(P) for _ in range(rng.choice([0, 1, 2, 3, 3, 3]))])), {"kind": "builtin"}))
+    # long argument lists and long strings: a size-dependent path (a sort, a scratch buffer) needs them
+    for n in L.DOCUMENTED_BUILTINS:
+        for _ in range(25 if tier == "quick" else 600):
+            k = rng.random()
+            if k < 0.5:
+                items = [rng.choice(P) if rng.random() < 0.4 else (G.vF(G.rand_float_bits(rng)) if rng.random() < 0.6 else G.vI(G.clamp_i64(G.rand_int(rng)))) for _ in range(rng.choice([4, 5, 8, 16, 21, 33, 64, 130]))]
+                if rng.random() < 0.5:
+                    items[rng.randrange(len(items))] = "F7ff8000000000000"
+                cases.append((G.call_case(n, G.vT(items)), {"kind": "builtin"}))
+            elif k < 0.8:
+                t = "".join(rng.choice(["a", "ä", " ", "\t", "Σ", "ß", "€", "𝄞", "\"", "\\", "x"]) for _ in range(rng.choice([13, 16, 17, 32, 64, 100, 255, 256, 300])))
+                cases.append((G.call_case(n, G.vS(t)), {"kind": "builtin"}))
+                cases.append((G.call_case(n, G.vT([G.vS(t), G.vI(rng.randint(-2, 400)), G.vI(rng.randint(-2, 400))])), {"kind": "builtin"}))
+            else:
+                t = G.vS("ab" * rng.choice([7, 20, 150]))
+                cases.append((G.call_case(n, G.vT([G.vT([t, t, G.vI(1)]), t])), {"kind": "builtin"}))
     for n in ("shl", "shr"):
         for a in G.INTS:
             for b in list(range(-70, 140)) + G.INTS:
